@@ -39,7 +39,9 @@ def scenario(sh: Shard, seed, idx):
         target = r.choice(resp) if resp and r.random() < 0.6 else None
         kw = {}
         if target is not None:
-            kw["spa_to_find"] = target["ident"].decode("latin1")
+            # both forms a caller may hold: the string, or the bytes a descriptor carries
+            kw["spa_to_find"] = target["ident"].decode("latin1") if r.random() < 0.5 else target["ident"]
+            sh.see("threaded_spa_to_find_forms", type(kw["spa_to_find"]).__name__)
         loc = GeckoLocator("02ac6d28-42d0-41e3-ad22-274d0aa491da", **kw)
         done = {}
 
@@ -70,7 +72,7 @@ def scenario(sh: Shard, seed, idx):
                                     first_arrival[x["ident"]] = min(ta, first_arrival.get(x["ident"], ta))
             s.sleep(0.01)
         sh.evaluations += 1
-        wit = {"scenario": f"{seed}:{idx}", "responders": [(x["sock"].addr[0], x["ident"].decode(), x["name"], x["lat"]) for x in resp], "spa_to_find": kw.get("spa_to_find")}
+        wit = {"scenario": f"{seed}:{idx}", "responders": [(x["sock"].addr[0], x["ident"].decode(), x["name"], x["lat"]) for x in resp], "spa_to_find": repr(kw.get("spa_to_find"))}
         if "t" not in done:
             sh.violation("C15:threaded:over-timeout", f"blocking discovery still running {s.now - t0:.1f}s after start (timeout {GeckoConfig.DISCOVERY_TIMEOUT_IN_SECONDS}s)", wit)
             return
